@@ -53,6 +53,10 @@ type c16Config struct {
 	// message and then reads the rest of the requests; the client sends its further messages
 	// only once that answer has arrived.
 	ClientStream bool
+	// Method: "" = the bidi method (CStream with ClientStream); "SStream" / "Unary": a method that
+	// takes ONE request message, called by a client that keeps its request stream open until it
+	// has seen the response (a legal late half-close); one round.
+	Method string
 }
 
 // c16BufferingWriter is such a middleware writer.
@@ -85,7 +89,7 @@ func (b *c16BufferingWriter) Flush() {
 func (b *c16BufferingWriter) Unwrap() http.ResponseWriter { return b.inner }
 
 func (k c16Config) String() string {
-	return fmt.Sprintf("%s/%s/%s>%s/%s/%v rounds=%d size=%d read=%d flush=%v split=%v wrapped=%v", k.Client, k.ClientCod, k.ClientComp, k.Target, k.TargetCod, k.TargetComp, k.Rounds, k.Size, k.ReadStyle, k.HandlerFl, k.SplitWrite, k.Wrapped) + map[bool]string{true: " two-responses-per-write", false: ""}[k.Double] + map[bool]string{true: " handler-speaks-first", false: ""}[k.Greeting] + map[bool]string{true: " client-stream-answered-early", false: ""}[k.ClientStream]
+	return fmt.Sprintf("%s/%s/%s>%s/%s/%v rounds=%d size=%d read=%d flush=%v split=%v wrapped=%v", k.Client, k.ClientCod, k.ClientComp, k.Target, k.TargetCod, k.TargetComp, k.Rounds, k.Size, k.ReadStyle, k.HandlerFl, k.SplitWrite, k.Wrapped) + map[bool]string{true: " two-responses-per-write", false: ""}[k.Double] + map[bool]string{true: " handler-speaks-first", false: ""}[k.Greeting] + map[bool]string{true: " client-stream-answered-early", false: ""}[k.ClientStream] + map[bool]string{true: " method=" + k.Method + " late-half-close", false: ""}[k.Method != ""]
 }
 
 type c16Result struct {
@@ -287,6 +291,9 @@ func c16Exec(k c16Config, prefix []int) (*sched.Run, *c16Result) {
 		if k.ClientStream {
 			rpcMethod = "CStream"
 		}
+		if k.Method != "" {
+			rpcMethod = k.Method
+		}
 		cr := &wire.ClientReq{Form: k.Client, Path: world.SvcPath + rpcMethod, Codec: k.ClientCod, Compression: k.ClientComp}
 		method, target, hdr, _ := cr.Encode()
 		spec := &drive.ReqSpec{Method: method, Target: target, Header: hdr, ContentLength: -1, ProtoMajor: 2, Body: body}
@@ -454,6 +461,29 @@ func c16Configs(tier string) []c16Config {
 			}
 		}
 	}
+	// methods that take one request message, client half-closing only after the response
+	for _, cf := range forms {
+		for _, tf := range forms {
+			for _, codecs := range [][2]string{{"proto", "proto"}, {"json", "proto"}, {"proto", "json"}} {
+				if cf == tf && codecs[0] == codecs[1] {
+					continue
+				}
+				for _, cp := range comps[:2] {
+					for _, m := range []string{"SStream", "Unary"} {
+						if m == "Unary" && (cf == wire.ConnectStream || tf == wire.ConnectStream) {
+							continue // (Connect's streaming form is not used for unary methods, on either leg)
+						}
+						for _, sz := range []int{0, 300} {
+							for rs := 0; rs < 4; rs++ {
+								out = append(out, c16Config{Client: cf, Target: tf, ClientCod: codecs[0], TargetCod: codecs[1], ClientComp: cp.c, TargetComp: cp.t,
+									Rounds: 1, Size: sz, ReadStyle: rs, HandlerFl: rs%2 == 0, SplitWrite: rs >= 2, Method: m})
+							}
+						}
+					}
+				}
+			}
+		}
+	}
 	return out
 }
 
@@ -463,7 +493,7 @@ func init() {
 		Level: "model_checking",
 		Rule: "Strict ping-pong of n rounds between a client thread and a handler thread over the stream-mode transport (response bytes visible only when flushed, request frames only once written), for every pairing of streaming client form x streaming target x codec relation x compression relation " +
 			"x rounds x message size (0, 1, 300, 5000 bytes) x handler read style (exact ReadFull, byte-wise, 32 KiB buffer, buffered reader) x handler flushing or not x envelope+payload in one or two writes; a subset also with ServeHTTP handed a buffering middleware writer that offers Unwrap(). All schedules of the two threads are explored (DFS, no preemption bound; scheduling points at every body read, write, flush, pool and mutex operation). " +
-			"Further configurations: the handler answers each request with two messages in one Write; the handler speaks first; a client-streaming method answered after the first request while the client waits for the answer. " +
+			"Further configurations: the handler answers each request with two messages in one Write; the handler speaks first; a client-streaming method answered after the first request while the client waits for the answer; server-streaming and unary methods called by a client that half-closes only after it has seen the response. " +
 			"A state is a scheduling decision point; a trace is one complete schedule of the real implementation. Non-trivial = distinct configuration that completed at least two rounds.",
 		Assume:  []string{"stream-mode transport never flushes on its own (real HTTP/2 flushes a full buffer; a lost flush leaves the tail of a message invisible in both)", "every explored trace is an execution of the implementation itself (no separate model)"},
 		Custom:  c16Custom,
